@@ -156,3 +156,71 @@ def refute_search(mod, proof, violations, ix, workdir, seed):
 
 
 refuters = {p.name: refute_search for p in proofs}
+
+
+# ---------------------------------------------------------------------------------------------
+# Resource::Merge (sdk/src/resource/resource.cc): "a.Merge(b) contains the union of both with b's value winning on every shared key and b's
+# schema URL unless it is empty, and leaves a and b unchanged". The attribute maps are seen through the slot of one arbitrary key K
+# (std::unordered_map copy construction and range insert per the C++ standard: insert does not overwrite).
+TU_RES = ("tu_resource", '#include "%s/sdk/src/resource/resource.cc"\n' % R.core.REPO)
+RES_PRE = r"""
+typedef struct xc_slotmap { int present; unsigned long val; } xc_slotmap;      /* an attribute map seen at the arbitrary key K: bound or not, to which value */
+typedef struct xc_url { unsigned long id; unsigned long len; } xc_url;           /* a schema URL: its identity and its length */
+static void xc_havoc_ghosts(void) { }
+/* range insert [begin, end) of src into dst: a key that dst already holds keeps its value (insert never overwrites) */
+static void xc_map_insert_all(xc_slotmap *dst, const xc_slotmap *src) { if (!dst->present && src->present) { dst->present = 1; dst->val = src->val; } }
+#define WF_SM(m) ((m).present == 0 || (m).present == 1)
+"""
+
+
+def _res_types(em, base, targs, name):
+    if base in ("std::unordered_map",) or name.split("::")[-1] in ("ResourceAttributes", "AttributeMap"):
+        return common.CT("xc_slotmap")
+    return None
+
+
+def _configure_res(cfg):
+    cfg.type_handlers.insert(0, _res_types)
+    cfg.type_map["sdk::common::AttributeMap"] = "xc_slotmap"
+    cfg.type_map["sdk::resource::ResourceAttributes"] = "xc_slotmap"
+    cfg.opaque_records["sdk::common::AttributeMap"] = "xc_slotmap"
+    for n in ("std::string", "std::basic_string<char>", "std::basic_string", "std::__cxx11::basic_string"):
+        cfg.type_map[n] = "xc_url"
+    for n in ("std::basic_string", "std::__cxx11::basic_string"):
+        cfg.ctor_ext[n] = lambda em, node, args: em.expr([a for a in args if a.get("kind") != "CXXDefaultArgExpr"][0])
+        cfg.ext_methods[n + "::empty"] = lambda em, recv, args, n: "(%s.len == 0)" % recv
+    for k in ("AttributeMap", "sdk::common::AttributeMap", "std::unordered_map"):
+        cfg.ctor_ext[k] = lambda em, node, args: em.expr([a for a in args if a.get("kind") != "CXXDefaultArgExpr"][0])
+
+    def _insert(em, recv, args, n):
+        # merged.insert(x.begin(), x.end()): the source container is the receiver of begin()
+        a0 = em._strip_all(args[0])
+        while a0.get("kind") not in ("CXXMemberCallExpr",) and a0.get("inner"):
+            a0 = em._strip_all(a0["inner"][0])
+        if a0.get("kind") != "CXXMemberCallExpr":
+            raise common.ExtractionError("insert(first, last): first is not container.begin()")
+        src = a0["inner"][0]["inner"][0]
+        return "xc_map_insert_all(&(%s), &(%s))" % (recv, em.expr(src))
+    cfg.ext_methods["std::unordered_map::insert"] = _insert
+
+
+contracts_res = {
+    "Resource_Merge": {"pre":
+        "__CPROVER_requires(__CPROVER_is_fresh(self, sizeof(*self)) && __CPROVER_is_fresh(other, sizeof(*other)) && WF_SM(self->attributes_) && WF_SM(other->attributes_))\n"
+        "__CPROVER_assigns()\n"      # a and b are left unchanged
+        "__CPROVER_ensures(__CPROVER_return_value.attributes_.present == (self->attributes_.present || other->attributes_.present))\n"
+        "__CPROVER_ensures(other->attributes_.present ==> __CPROVER_return_value.attributes_.val == other->attributes_.val)\n"
+        "__CPROVER_ensures((!other->attributes_.present && self->attributes_.present) ==> __CPROVER_return_value.attributes_.val == self->attributes_.val)\n"
+        "__CPROVER_ensures(__CPROVER_return_value.schema_url_.id == (other->schema_url_.len == 0 ? self->schema_url_.id : other->schema_url_.id))\n"},
+}
+_pr = Proof("Resource_Merge", [("Resource::Merge", 1)], enforce="Resource_Merge", timeout=300,
+            desc="a.Merge(b): union, b's value wins on a shared key, b's schema URL unless empty, a and b unchanged (for an arbitrary key)")
+_pr.tu = TU_RES
+_pr.pre_c = RES_PRE
+_pr.post_struct_c = ""
+_pr.spec_headers = ()
+_pr.force_records = ()
+_pr.configure = _configure_res
+_pr.own_config = True
+_pr.contracts = contracts_res
+proofs.append(_pr)
